@@ -367,6 +367,20 @@ def it_next(m, itv, back=False):
             if back:
                 raise NotEncodable('enumerate next_back')
             return mk_iter('enumerate', ns, state=s.state + 1), Adt('(tuple)', 0, (s.state, x))
+        if k == 'flat_map':
+            if back:
+                raise NotEncodable('flat_map next_back')
+            src, inner = s.src, s.state
+            while True:
+                if inner is not None:
+                    inner, x = it_next(m, inner, back)
+                    if x is not None:
+                        return mk_iter('flat_map', src, s.f, inner), x
+                    inner = None
+                src, y = it_next(m, src, back)
+                if y is None:
+                    return mk_iter('flat_map', src, s.f, None), None
+                inner = into_iter_value(m, call_closure(m, s.f, [y]))
         if k == 'scan':
             if back:
                 raise NotEncodable('scan next_back')
